@@ -144,7 +144,7 @@ def oracle(payload):
             return None
         act, ai = made
         for p, v in zip(act.parameters, ai.actual_parameters):
-            if not p.type.is_compatible(v.type):
+            if not bl.indep_compatible(p.type, v.type):
                 return f"ActionInstance stores {v} of type {v.type} for parameter {p}"
             if not v.is_constant():
                 return f"ActionInstance stores the non-constant {v} for parameter {p}"
